@@ -1229,4 +1229,94 @@ theorem content_stable {s s' : St} {tid : Nat} {a : Act} {v b : Nat} {blk : Bloc
     simp only [astep] at hs
     split at hs <;> first | (cases hs; done) | (cases hs; exact same rfl)
 
+
+/-! ### handles embedded in payloads -/
+
+theorem handlesOf_split (n a : Nat) (slots : Nat → Handle) (b : Nat) (h : a ≤ n) :
+    handlesOf n slots b = handlesOf a slots b + (List.range' a (n - a)).countP (fun v => slots v == Handle.blk b) := by
+  unfold handlesOf
+  have : List.range n = List.range a ++ List.range' a (n - a) := by
+    rw [List.range_eq_range', List.range_eq_range']
+    have e := List.range'_append_1 (s := 0) (m := a) (n := n - a)
+    rw [Nat.zero_add] at e
+    rw [e]; congr 1; omega
+  rw [this, List.countP_append]
+
+/-- which slots a step of thread `tid` can change: its own ones, and the embedded slot of a block through
+    the three exclusive embedded-handle steps -/
+theorem astep_slots_other {s s' : St} {tid x : Nat} {a : Act} (hs : astep s tid a = some s') (hx : s.owner x ≠ tid) :
+    s'.slots x = s.slots x ∨ (∃ t c v, (a = .takeE t c v ∨ a = .putE c t v) ∧ x = embSlot c) ∨
+      (∃ t c, a = .takeF t c ∧ x = embSlot c) := by
+  have updne : ∀ (f : Nat → Handle) (t : Nat) (h : Handle), s.owner t = tid → upd f t h x = f x := by
+    intro f t h ho
+    have : x ≠ t := by intro e; subst e; exact hx ho
+    exact upd_other _ _ _ _ this
+  have incC : ∀ (t src : Nat), s.owner t = tid → (doInc s t src).slots x = s.slots x := by
+    intro t src ho
+    simp only [doInc]
+    (repeat' split) <;> first | rfl | exact updne _ _ _ ho
+  cases a with
+  | inc t src =>
+    simp only [astep] at hs; split at hs
+    case isFalse => cases hs
+    case isTrue hc => cases hs; left; exact incC _ _ hc.2.2.1
+  | incE t c v =>
+    simp only [astep] at hs; split at hs
+    case isFalse => cases hs
+    case isTrue hc => cases hs; left; exact incC _ _ hc.2.2.1
+  | dec t =>
+    simp only [astep] at hs; split at hs
+    case isFalse => cases hs
+    case isTrue hc =>
+      (repeat' split at hs) <;> first | (cases hs; left; rfl) | (cases hs; left; exact updne _ _ _ hc.2.1)
+  | free => simp only [astep] at hs; (repeat' split at hs) <;> first | (cases hs; done) | (cases hs; left; rfl)
+  | alloc t tag val cap =>
+    simp only [astep] at hs; split at hs
+    case isFalse => cases hs
+    case isTrue hc => cases hs; left; exact updne _ _ _ hc.2.1
+  | readRef t ok => simp only [astep] at hs; (repeat' split at hs) <;> first | (cases hs; done) | (cases hs; left; rfl)
+  | write val => simp only [astep] at hs; (repeat' split at hs) <;> first | (cases hs; done) | (cases hs; left; rfl)
+  | move d t =>
+    simp only [astep] at hs; split at hs
+    case isFalse => cases hs
+    case isTrue hc =>
+      cases hs; left; simp only [doMove]
+      rw [updne _ _ _ hc.2.2.2.2.1, updne _ _ _ hc.2.2.2.1]
+  | swap a c =>
+    simp only [astep] at hs; split at hs
+    case isFalse => cases hs
+    case isTrue hc =>
+      cases hs; left
+      show upd (upd s.slots a (s.slots c)) c (s.slots a) x = s.slots x
+      rw [updne _ _ _ hc.2.2.2.1, updne _ _ _ hc.2.2.1]
+  | setInl d tag val =>
+    simp only [astep] at hs; split at hs
+    case isFalse => cases hs
+    case isTrue hc => cases hs; left; exact updne _ _ _ hc.2.1
+  | give v tid' => simp only [astep] at hs; split at hs <;> first | (cases hs; done) | (cases hs; left; rfl)
+  | takeE t c v =>
+    by_cases e : x = embSlot c
+    · right; left; exact ⟨t, c, v, Or.inl rfl, e⟩
+    · simp only [astep] at hs; split at hs
+      case isFalse => cases hs
+      case isTrue hc =>
+        cases hs; left; simp only [doMove]
+        rw [upd_other _ _ _ _ e, updne _ _ _ hc.2.2.2.1]
+  | putE c t v =>
+    by_cases e : x = embSlot c
+    · right; left; exact ⟨t, c, v, Or.inr rfl, e⟩
+    · simp only [astep] at hs; split at hs
+      case isFalse => cases hs
+      case isTrue hc =>
+        cases hs; left; simp only [doMove]
+        rw [updne _ _ _ hc.2.2.2.1, upd_other _ _ _ _ e]
+  | takeF t c =>
+    by_cases e : x = embSlot c
+    · right; right; exact ⟨t, c, rfl, e⟩
+    · simp only [astep] at hs; split at hs
+      case isFalse => cases hs
+      case isTrue hc =>
+        cases hs; left; simp only [doMove]
+        rw [upd_other _ _ _ _ e, updne _ _ _ hc.2.2.2.1]
+
 end Nstd.Rc
